@@ -238,13 +238,18 @@ P('C16', claimed=True, level='other',
   level_note=('The allocator invariant ties an index array, a dict of sets and two cursors through four '
               'loops: bounded only. Bit operations modelled arithmetically with a disjointness side condition.'))
 
-P('C17', claimed=True, level='other', contracts=['base_netaddr_bind'], drivers=['vf.drivers.C17'],
-  level_text=('BundleNetAddr.__exit__ is proved to send the collected bundle iff the block did not raise '
-              '(any exception class). '
-              'Every message emitted at the single OSC choke point during histories of client-object '
+P('C17', claimed=True, level='other', contracts=['base_netaddr_bind', 'synth_node_cmds'], drivers=['vf.drivers.C17'],
+  level_text=('Discharged (pyvc, all ids/flags): BundleNetAddr.__exit__ sends the collected bundle iff the block did '
+              'not raise (any exception class); the straight-line node commands send exactly the reference '
+              'command once, through the object\'s own server address, with its own node id (and the target\'s), '
+              'and change nothing of the object but the listed field: Node.free/run/trace/move_before/move_after/'
+              'move_to_head/move_to_tail, AbstractGroup._move_node_to_head/_tail/free_all/deep_free/dump_tree. '
+              'Bounded: every message emitted at the single OSC choke point during histories of client-object '
               'operations is checked against grammars written from the Server Command Reference, for '
               'ownership of the ids it mentions, creation/free pairing and bind() atomicity.'),
-  level_note='Bounded: ~38k histories quick. The command emitters build argument lists dynamically: outside the provable subset.',
+  level_note=('Bounded: ~38k histories quick. The emitters that build argument lists dynamically (set, map, setn, '
+              'fill, seti, release, query, constructors, buffers, buses) are outside the provable subset: bounded '
+              'only. In the node command contracts sending is a ghost trace event (encoding is C06/C07).'),
   unreached=['what a real server does with the commands'])
 
 P('C18', claimed=True, level='other',
